@@ -1207,7 +1207,7 @@ struct TemplateCore {
                 ++index;
             }
 
-            StringUtils::EscapeHTMLSpecialChars(*stream_, (content + last_index), (index - last_index));
+            StringUtils::EscapeHTMLSpecialChars(*stream_, (content + last_index), (length - last_index));
         } else {
             stream_->Write((content_ + tag.Offset), (tag.EndOffset - tag.Offset));
         }
